@@ -97,9 +97,11 @@ LeafW(cv) ==
      CASE e.op = "tok" -> IF TokAt(p, e.s)
                           THEN fr' = AppendNode(Goto(fr, p + Len(e.s)), Str(e.s)) /\ ret' = RetOK(Str(e.s)) /\ memo' = memo
                           ELSE fr' = Goto(fr, p) /\ ret' = RetKO /\ memo' = memo
-       [] e.op = "pat" -> LET n == ClassRun(p0, e.cls, IF e.many THEN N ELSE 1) IN
-                          IF n < e.min THEN fr' = fr /\ ret' = RetKO /\ memo' = memo
-                          ELSE fr' = AppendNode(Goto(fr, p0 + n), Str(SubText(p0, p0 + n))) /\ ret' = RetOK(Str(SubText(p0, p0 + n))) /\ memo' = memo
+       [] e.op = "pat" -> LET n == ClassRun(p0, e.cls, IF e.many THEN N ELSE 1)
+                              \* a second group: the whole match is consumed, the value is the FIRST group (util/itertools.py: str_from_match)
+                              n2 == IF e.cls2 = <<>> THEN 0 ELSE ClassRun(p0 + n, e.cls2, IF e.many2 THEN N ELSE 1) IN
+                          IF n < e.min \/ (e.cls2 # <<>> /\ n2 < e.min2) THEN fr' = fr /\ ret' = RetKO /\ memo' = memo
+                          ELSE fr' = AppendNode(Goto(fr, p0 + n + n2), Str(SubText(p0, p0 + n))) /\ ret' = RetOK(Str(SubText(p0, p0 + n))) /\ memo' = memo
        [] e.op = "opat" -> LET m == OPat(e, p0) IN
                            IF m.n < 0 THEN fr' = fr /\ ret' = RetKO /\ memo' = memo
                            ELSE fr' = AppendNode(Goto(fr, p0 + m.n), m.v) /\ ret' = RetOK(m.v) /\ memo' = memo
